@@ -35,6 +35,7 @@ type State struct {
 	lockLog  []string
 	spawned  []string
 	called   map[string]bool // names of the callees called so far on this path (spec builtin called(name))
+	appendCond map[string]string // slice term -> condition under which an append result does not share memory that existed at entry
 	cells    map[string]string // private local variable cells of the function under verification: ref -> heap class
 	oldHeap  map[string]string // if set: what old() denotes on this path (the state after the last interference point)
 	ncalls   map[string]int  // number of calls of each callee on this path (spec builtin callcount(name))
@@ -76,6 +77,10 @@ func (st *State) clone() *State {
 	n.spawned = append([]string{}, st.spawned...)
 	n.called = map[string]bool{}
 	n.lastRet = map[string]Val{}
+	n.appendCond = map[string]string{}
+	for k, v := range st.appendCond {
+		n.appendCond[k] = v
+	}
 	n.cells = map[string]string{}
 	for k, v := range st.cells {
 		n.cells[k] = v
